@@ -132,6 +132,7 @@ int engine_c15(RBuf &rq)
         s.trigger = 0;
         s.k = u0 + 1 + sig_k;
         s.after = 0;
+        s.repeat = 0;
         s.done = false;
         W.sigs.clear();
         W.sigs.push_back(s);
